@@ -3,7 +3,7 @@
    used for the core fragment.  Cnl/Core.v: the core fragment F0, its compile model (byte-exact on F0), grounding, and the reading. *)
 Require Import Coq.Strings.String Coq.Lists.List Coq.Bool.Bool.
 Require Import Coq.ZArith.ZArith Lia.
-Require Import Cnl2aspV.Asp.Ground Cnl2aspV.Cnl.Core Cnl2aspV.Cnl.CoreProofs Cnl2aspV.Cnl.CoreOneOf Cnl2aspV.Cnl.CoreDef Cnl2aspV.Cnl.CoreChoice.
+Require Import Cnl2aspV.Asp.Ground Cnl2aspV.Cnl.Core Cnl2aspV.Cnl.CoreProofs Cnl2aspV.Cnl.CoreOneOf Cnl2aspV.Cnl.CoreDef Cnl2aspV.Cnl.CoreChoice Cnl2aspV.Cnl.CoreWhere Cnl2aspV.Cnl.Comparison.
 Import ListNotations.
 
 (* for hierarchical ground programs (no predicate depends on itself): I is a stable model iff it satisfies the constraints and
@@ -166,3 +166,34 @@ Example C01_choice_example :
   r_sentence s (("host(1,1)" :: base)%string) (SChoice c) = false /\
   print_program (compile_sentence s (SChoice c)) = ("1 <= {host(RM_D,SHLF_D): shelf(SHLF_D)} <= 1 :- room(RM_D)." ++ Str.nl)%string.
 Proof. vm_compute. repeat split. discriminate. Qed.
+
+(* ... and the single-clause constraint restricted by a comparison of its labels ("..., where X is different from Y" and every
+   other comparison phrase of the language, either label on either side): the ground constraints of the compiled rule (instances
+   whose comparison is false are not emitted) hold in I exactly when no pair of declared values that meets the comparison
+   violates the sentence.  Values that are not integers meet no comparison, on both sides. *)
+Theorem C01_single_clause_where_partial :
+  forall (s : spec) (U : list string) (I : interp) (cl : clause) (required : bool) (w : wherec),
+    cl_slabel cl <> cl_olabel cl ->
+    In (w_phrase w) comparison_phrases ->
+    (w_left w = cl_slabel cl \/ w_left w = cl_olabel cl) -> (w_right w = cl_slabel cl \/ w_right w = cl_olabel cl) ->
+    (forall x, In x U -> holds I (atom_text (cl_subj cl) [x]) = Util.mem_string x (dom_of s (cl_subj cl))) ->
+    (forall y, In y U -> holds I (atom_text (cl_obj cl) [y]) = Util.mem_string y (dom_of s (cl_obj cl))) ->
+    incl (dom_of s (cl_subj cl)) U -> incl (dom_of s (cl_obj cl)) U ->
+    constraints_ok I (flat_map (ground_rule U) (compile_sentence s (SCons required [] [cl] (Some w)))) =
+    r_sentence s I (SCons required [] [cl] (Some w)).
+Proof. exact one_clause_where_correct. Qed.
+Print Assumptions C01_single_clause_where_partial.
+
+(* non-vacuity: nodes 1..2 linked to nodes; 'It is prohibited that node X link node Y, where X is greater than Y.' admits
+   link(1,2) and rejects link(2,1) *)
+Example C01_where_example :
+  let s := {| concepts := [{| c_name := "node"; c_key := "id"; c_dom := DRange 1 2 |}]; sentences := [] |} in
+  let cl := {| cl_subj := "node"; cl_slabel := "X"; cl_neg := false; cl_verb := {| v_word := "link"; v_copula := false; v_prep := None |};
+               cl_obj := "node"; cl_olabel := "Y" |} in
+  let w := {| w_left := "X"; w_phrase := "greater than"; w_right := "Y" |} in
+  let x := SCons false [] [cl] (Some w) in
+  let base := ["node(1)"; "node(2)"]%string in
+  In (w_phrase w) comparison_phrases /\
+  r_sentence s (("link(1,2)" :: base)%string) x = true /\ r_sentence s (("link(2,1)" :: base)%string) x = false /\
+  print_program (compile_sentence s x) = (":- node(X), link(X,Y), node(Y), X > Y." ++ Str.nl)%string.
+Proof. vm_compute. repeat split. tauto. Qed.
